@@ -335,3 +335,13 @@ Definition timed (rows : list row) : list (Z * item) :=
 (* row i is a time point: it is the first row with its onset (in a sorted time line) *)
 Definition time_point (tl : list row) (i : nat) : Prop :=
   i < length tl /\ forall k, k < i -> (nth k (map r_onset tl) 0 < nth i (map r_onset tl) 0)%Z.
+
+(* the file after Delay shifting, before sorting: every row without its Delay groups, in file order,
+   followed by one row per Delay group (at onset + delay), in file order *)
+Definition kept_row (r : row) : row :=
+  mkRow (r_onset r) (filter (fun it => negb (has_delay it)) (r_items r)).
+
+Definition delayed_rows (r : row) : list row :=
+  map (fun it => mkRow (delay_of it + r_onset r)%Z [it]) (filter has_delay (r_items r)).
+
+Definition shifted_rows (h : list row) : list row := map kept_row h ++ flat_map delayed_rows h.
